@@ -1,4 +1,5 @@
 CONSTANTS NReq = 1  NConn = 1  Shapes <- ShapesSingle  Pools = {0, 1}  HTs = {FALSE, TRUE}
   TimerAfterDecode = TRUE  KF_BlankTimeoutReply = TRUE  KF_PacketTypeSetLate = FALSE  KF_TupDropsResult = FALSE
+  Filts = {"none", "legacy", "prepost", "mw", "all"}  VG_PingThroughFilter = FALSE
 SPECIFICATION Spec
 INVARIANTS IdentityEchoed
